@@ -139,6 +139,8 @@ def run(ctx, sc):
         p = sc.path(f"regex_{label}.db")
         free = build(p, ncols, both)
         r = run_one(p)
+        if r["timeout"] and label != f"both-{FINDING_COLUMNS}":
+            r = run_one(p, 3 * LIMIT)      # a control that ran into the limit on a loaded machine is given a second, longer run
         ctx.evals += 1
         sig = r["signature"] or []
         nboth = sum(1 for c in sig if -1 in c and -2 in c)
